@@ -16,6 +16,8 @@ extern "C" void *__wrap_malloc(size_t n) {
   return __real_malloc(n);
 }
 extern "C" void *__wrap_realloc(void *p, size_t n) {
+  // glibc: realloc(p, 0) with p != NULL frees the block and returns NULL (SimpleAllocator turns that NULL into std::bad_alloc)
+  if (p && n == 0 && g_heap.owns(p)) { g_heap.deallocate(p, 0, 0, 0, DOM_MALLOC, false); return nullptr; }
   if (p ? g_heap.owns(p) : (G.armed && G.harnessDepth == 0)) return g_heap.reallocate(p, 0, n, 0, 0, DOM_MALLOC, false, true);
   return __real_realloc(p, n);
 }
